@@ -311,27 +311,61 @@ func modelCases2(c *ctx) {
 						hs = append(hs, vl(va(cur), va(val)))
 					}
 				}
-				c.pair("slot", vl(va(urlS(s.PutURL)), vlist(hs), va(urlS(s.GetURL))), out, toks, "", func() (string, error) {
+				type hv struct{ n, v string }
+				var order []hv
+				for _, h := range hs {
+					parts := strings.Split(strings.Trim(h, "[]"), ",")
+					nb, _ := common.UnHex(strings.TrimPrefix(parts[0], "~"))
+					vb, _ := common.UnHex(strings.TrimPrefix(parts[1], "~"))
+					order = append(order, hv{string(nb), string(vb)})
+				}
+				// decoded headers listed in document order (http.Header.Add keeps per-name order)
+				slotDec := func(doc []byte, order []hv) (string, error) {
 					var d upload.Slot
-					err := xml.Unmarshal(out, &d)
-					if err != nil {
+					if err := xml.Unmarshal(doc, &d); err != nil {
 						return "", err
 					}
-					// decoded headers in the order of the document (http.Header.Add keeps per-name order)
 					idx := map[string]int{}
 					var dh []string
-					for _, h := range hs {
-						// h = [name,value]: recover the name to index into the decoded header
-						name := h[2:strings.Index(h, ",")]
-						nb, _ := common.UnHex(name)
-						vals := d.Header[http.CanonicalHeaderKey(string(nb))]
-						if i := idx[string(nb)]; i < len(vals) {
-							dh = append(dh, vl(va(string(nb)), va(vals[i])))
-							idx[string(nb)]++
+					for _, h := range order {
+						cn := http.CanonicalHeaderKey(h.n)
+						if vals := d.Header[cn]; idx[cn] < len(vals) && (cn == "Authorization" || cn == "Cookie" || cn == "Expires") {
+							dh = append(dh, vl(va(h.n), va(vals[idx[cn]])))
+							idx[cn]++
 						}
 					}
+					rest := 0
+					for n, vals := range d.Header {
+						rest += len(vals) - idx[n]
+					}
+					if rest != 0 {
+						return "", fmt.Errorf("%d decoded headers are not in the document order list", rest)
+					}
 					return vl(va(urlS(d.PutURL)), vlist(dh), va(urlS(d.GetURL))), nil
+				}
+				c.pair("slot", vl(va(urlS(s.PutURL)), vlist(hs), va(urlS(s.GetURL))), out, toks, "", func() (string, error) {
+					return slotDec(out, order)
 				})
+				// a slot as a server might send it: with headers the client must ignore
+				foreign := []hv{{"X-Other", "v"}, {"Cookie", "c<&>"}, {"Content-Type", "text/plain"}}
+				var doc bytes.Buffer
+				doc.WriteString(`<slot xmlns="urn:xmpp:http:upload:0"><put url="https://example.net/p">`)
+				all := append(append([]hv(nil), order...), foreign...)
+				for _, h := range all {
+					doc.WriteString(`<header name="`)
+					_ = xml.EscapeText(&doc, []byte(h.n))
+					doc.WriteString(`">`)
+					_ = xml.EscapeText(&doc, []byte(h.v))
+					doc.WriteString(`</header>`)
+				}
+				doc.WriteString(`</put><get url="https://example.net/g"></get></slot>`)
+				if ft, err := reparse(doc.Bytes()); err == nil {
+					obs, err := slotDec(doc.Bytes(), all)
+					if err != nil {
+						obs = "ERR"
+					}
+					r.Line("dec slot "+common.EncToks(ft), obs)
+				}
 			}
 		}
 		// file metadata
